@@ -411,8 +411,9 @@ impl DiskCache {
             // item simultaneously.
             if item != cache_item {
                 overlapping_item_paths.insert(self.item_path(key, &item)?);
-                total_bytes_rm += item.len;
             }
+            // the item leaves the state either way, so its bytes leave the total either way
+            total_bytes_rm += item.len;
         }
         state.num_items -= num_items_rm;
         state.total_bytes -= total_bytes_rm;
